@@ -5,7 +5,8 @@
 //
 //	phase 1 (mc.BFS, dedup on (model contents, iterator range, iterator position)): every operation from
 //	        every reachable abstract state; a successor is produced by replaying the representative op
-//	        path + the new op on a FRESH MemDB (no cloning, no rebuild-from-model shortcut).
+//	        path + the new op on a FRESH MemDB (no cloning, no rebuild-from-model shortcut). BFS nodes are compact
+//	        (1 byte per event + 16-byte state hash); thorough is bounded to 8 workers / 8 GiB (watchdog -> Capped).
 //	phase 2 (history sweep, no dedup): every sequence of write operations up to a depth, full read battery
 //	        (Get/Find/Len/Size/ForEach/forward+backward scans over all ranges/Seek) after every prefix.
 //	phase 3 (tall skip list): 13 keys inserted in every (stride, offset) order so that nodes of height 2..5
